@@ -439,6 +439,30 @@ func hashCmd(args []string) error {
 			}
 		}
 	}
+	// (a3) two files with the same base name in different directories: exchanging their contents is a change
+	if *shard == 2%*nshards {
+		da, db := filepath.Join(root, "same", "client"), filepath.Join(root, "same", "server")
+		os.MkdirAll(da, 0o755)
+		os.MkdirAll(db, 0o755)
+		pa, pb := filepath.Join(da, "version.txt"), filepath.Join(db, "version.txt")
+		os.WriteFile(pa, []byte("1.0"), 0o644)
+		os.WriteFile(pb, []byte("2.0"), 0o644)
+		l := []string{pa, pb}
+		d0 := ask(&w, bin, 4, l, 10*time.Second)
+		os.WriteFile(pa, []byte("2.0"), 0o644)
+		os.WriteFile(pb, []byte("1.0"), 0o644)
+		d1 := ask(&w, bin, 4, l, 10*time.Second)
+		st.BySource["same-base-name(impl only)"]++
+		if dg(d0) != "" && dg(d0) == dg(d1) {
+			fail("C04", "same-base-name", "two files called version.txt in different directories: exchanging their contents left the digest unchanged")
+		}
+		os.Remove(pb)
+		pc := filepath.Join(root, "same", "version.txt")
+		os.WriteFile(pc, []byte("1.0"), 0o644)
+		if d2 := ask(&w, bin, 4, []string{pa, pc}, 10*time.Second); dg(d1) != "" && dg(d2) == dg(d1) {
+			fail("C04", "same-base-name", "moving a file to another directory under the same name left the digest unchanged")
+		}
+	}
 	// (a'') sizes and counts at which an implementation might change strategy (impl only): files of 1 MiB and 32 MiB and a little
 	// more, lists a little longer than the number of CPUs.  Every byte of every listed file counts, a file's timestamps do not,
 	// and a file that opens but cannot be read is an error
